@@ -61,6 +61,9 @@ CHECKS = {
     "C18": ("Hypothesis-generated image stacks / masks / chunkings vs an exact numpy SVD of the centred masked matrix; planted clusters; loader.classify on tomograms with interleaved planted classes",
             "Generated-input exploration with a reference-model oracle (singular values, principal subspaces, projections, orthonormality, chunking independence), planted-truth cluster recovery, and a bookkeeping oracle for loader.classify (one integer column in molecule order, nothing else changed).",
             "components compared as subspaces where singular values are within 1% of each other; cluster recovery only asserted for well separated planted classes and n_clusters <= k + 1", "4/C18"),
+    "C19": ("recursive Hypothesis strategy over pipeline expression trees (providers, converters, arithmetic with scalars on either side, comparisons, unary minus, @) evaluated against a small interpreter (nested function application + numpy); metamorphic scale covariance; analytic Gaussian; mask-converter laws; currying",
+            "Generated-program exploration: every generated pipeline expression is built with the library operators and compared with an independent interpreter of the same tree; @-chains are checked for associativity; physical-unit parameters are checked by the metamorphic relation (lambda*params, lambda*scale) == (params, scale), from_gaussian against the closed form, rescaling providers, extensivity laws of the mask converters, curried functions and loader.normalize_*.",
+            "parameters passing through ceil/round/int are generated in the pixel domain away from discontinuities; arithmetic on comparison results is not generated; mask laws on masks r+1 voxels away from the faces", "4/C19"),
 }
 
 NOT_YET = {}
